@@ -21,6 +21,7 @@ from __future__ import annotations
 import contextlib
 import json
 import logging
+import random
 import threading
 from datetime import datetime, timedelta, timezone
 from typing import Any, Dict, List, Optional, Tuple
@@ -36,7 +37,7 @@ FOCUS = ("reactivex/scheduler/trampoline.py", "reactivex/scheduler/currentthread
 FOCUS_WIDE = FOCUS + ("reactivex/scheduler/trampolinescheduler.py", "reactivex/scheduler/scheduleditem.py")
 SOLO_KINDS = ("trampoline", "currentthread", "singleton")
 TRACE_CONSTS = dict(Threads={1, 2, 3}, SharedS={1}, LocalS={2, 3}, MaxItems=12, MaxCmds=0, MaxBody=99, RelD={0}, AbsT={0},
-                    SleepD={1}, NegRel=False, ClockMode="trace", MaxClock=0, Record=False)
+                    SleepD={1}, NegRel=False, ClockMode="trace", MaxClock=0, Record=False, Req=False)
 
 logging.getLogger("Rx").setLevel(logging.ERROR)   # "Do not schedule blocking work!" for every timed item
 
@@ -113,6 +114,7 @@ class Rig:
         self.gid: Dict[int, int] = {}       # item name -> id in the trace (global call order)
         self.count = 0
         self.ran: List[Dict[str, Any]] = []
+        self.reqs: List[int] = []
         self.depth = threading.local()
         self.problems: List[str] = []
         self.strict_ids = strict_ids
@@ -139,7 +141,7 @@ class Rig:
             else:
                 d = sch.schedule_absolute(EPOCH + timedelta(seconds=a), act)
             if self.log:
-                self.log(e="ret")
+                self.log(e="ret", res=2)
             self.disp[b] = d    # only now is the disposable in the client's hands
         elif c == "cancel":
             d = self.disp.get(a)
@@ -149,7 +151,15 @@ class Rig:
                 self.log(e="call", op="cancel", s=0, a=self.gid[a], id=0)
             d.dispose()
             if self.log:
-                self.log(e="ret")
+                self.log(e="ret", res=2)
+        elif c == "req":
+            sch = self.sched_of(s)
+            if self.log:
+                self.log(e="call", op="req", s=s, a=0, id=0)
+            r = 1 if sch.schedule_required() else 0
+            self.reqs.append(r)
+            if self.log:
+                self.log(e="ret", res=r)
         elif c == "sleep":
             self.sleep(float(a))
         else:
@@ -238,7 +248,7 @@ def perform_solo(scn: Dict[str, Any], kind: str, trace: bool = False) -> Dict[st
         except Exception as e:  # noqa: BLE001 - an exception escaping a scheduler call is an observation
             out["raised"] = type(e).__name__ + ": " + str(e)[:200]
             events.append({"e": "raised", "th": 1, "clk": _tick(SOLO.t)})
-    out.update(ran=rig.ran, tops=[tops], problems=rig.problems, waits=SOLO.waits)
+    out.update(ran=rig.ran, tops=[tops], reqs=rig.reqs, problems=rig.problems, waits=SOLO.waits)
     if trace:
         out["trace"] = events
     return out
@@ -250,7 +260,8 @@ def judge_solo(args) -> List[Dict[str, Any]]:
     fails = []
     for kind in kinds:
         got = perform_solo(scn, kind)
-        if got.get("hang") or got.get("raised") or got["problems"] or got["ran"] != obs["ran"] or got["tops"] != obs["tops"]:
+        if got.get("hang") or got.get("raised") or got["problems"] or got["ran"] != obs["ran"] or got["tops"] != obs["tops"] \
+                or got["reqs"] != obs["reqs"]:
             exp_ids = [r["id"] for r in obs["ran"]]
             got_ids = [r["id"] for r in got["ran"]]
             exp_dep = [r["depth"] for r in obs["ran"]]
@@ -269,6 +280,8 @@ def judge_solo(args) -> List[Dict[str, Any]]:
                 failure = "clock_at_start"
             elif got["tops"] != obs["tops"]:
                 failure = "return_point"
+            elif got["reqs"] != obs["reqs"]:
+                failure = "schedule_required"
             else:
                 failure = "creation_order"
             fails.append({"engine": "tramp-solo", "sched": kind, "scn": scn, "expected": obs, "observed": got,
@@ -327,12 +340,45 @@ def explore_program(args) -> Dict[str, Any]:
 
     # the set-up thread's singleton trampoline dates from import time (real Lock/Condition): should a changed tree share
     # it between threads it must at least be a cooperative one, or the logical threads block for real
+    def single_preemptions():
+        """The schedules with exactly one preemption, spread evenly over the run when there are more than the cap
+        (the shared Explorer's DFS visits deviations at the earliest decisions first and is cut off by the cap)."""
+        def chooser(k, alt, first):
+            pos = [0]
+
+            def choose(en, cur, can_preempt):
+                i = pos[0]
+                pos[0] += 1
+                if i == k and cur in en and can_preempt:
+                    others = [e for e in en if e != cur]
+                    return others[alt % len(others)]
+                if cur in en:
+                    return cur
+                return en[first % len(en)]      # which thread goes first / next when the current one is done or blocked
+            return choose
+        nthreads = sum(1 for t in prog["top"] if t)
+        per = max(4, max_sched // nthreads)
+        for first in range(nthreads):
+            base = run_one(chooser(-1, 0, first))
+            yield base
+            pts = [i for i, (en, pick, cur, can) in enumerate(base.decisions) if cur != -1 and can]
+            if len(pts) > per:
+                step = len(pts) / float(per)
+                pts = sorted({pts[min(len(pts) - 1, int(j * step))] for j in range(per)} | set(pts[-3:]))
+                stats["single_preemption_points_sampled"] = 1
+            for n_, k in enumerate(pts):
+                yield run_one(chooser(k, n_, first))
+
     with shims.patched(extra=DET_PATCH), _fresh_singleton_trampoline():
-        phases = [(min(bound, 1), max_sched, 0), (bound, max_sched, nrandom)] if bound > 1 else [(bound, max_sched, nrandom)]
         truncated = False
-        for (b, ms, nr) in phases:
-            ex = detsched.Explorer(bound=b, max_schedules=ms, random_schedules=nr, seed=seed)
-            for ds in ex.explore(run_one):
+        gens = [single_preemptions()]
+        if bound > 1:
+            ex = detsched.Explorer(bound=bound, max_schedules=max_sched, random_schedules=nrandom, seed=seed)
+            gens.append(ex.explore(run_one))
+        else:
+            ex = None
+        for gen in gens:
+            for ds in gen:
                 stats["executions"] += 1
                 tr = list(ds.trace)
                 if ds.deadlocked:
@@ -351,7 +397,7 @@ def explore_program(args) -> Dict[str, Any]:
                 if key not in traces:
                     traces[key] = [tr, 0, [d[1] for d in ds.decisions]]
                 traces[key][1] += 1
-            truncated = truncated or ex.truncated
+        truncated = bool(ex is not None and ex.truncated) or bool(stats.get("single_preemption_points_sampled"))
     return {"prog": prog, "variant": variant, "traces": list(traces.values()), "stats": stats, "truncated": truncated}
 
 
@@ -397,7 +443,7 @@ def validate_traces(ck, items: List[Tuple[List[Any], Dict[str, Any]]], label: st
             ck.add_tlc(r, f"trace validation {label} ({len(idx)} traces)")
         for (j, upto) in rejected:
             tr, ctx = items[idx[j]]
-            rec = {"engine": "tramp-trace", "source": label}
+            rec = {"engine": "tramp-trace", "source": ctx.get("source_kind", label)}
             rec.update(classify(tr, upto))
             rec.update(ctx)
             rec.update({"trace": tr, "rejected_at": upto})
@@ -437,3 +483,28 @@ def directed_programs(nthreads: int = 2) -> List[Dict[str, Any]]:
         prog([[_c("imm", 1, 0, 1)], [_c("imm", 1, 0, 2)], [_c("imm", 1, 0, 3)]], {1: [_c("imm", 1, 0, 4)]})
         prog([[_c("imm", 3, 0, 1)], [_c("imm", 2, 0, 2)], [_c("rel", 1, 1, 3), _c("imm", 3, 0, 4)]], {2: [_c("imm", 1, 0, 5)]})
     return P
+
+
+def corrupt(traces: List[List[Dict[str, Any]]], seed: int) -> List[Tuple[List[Dict[str, Any]], str]]:
+    """Binding self-test: small corruptions of accepted traces that the trace spec must reject:
+    an action that never ran (start/end pair dropped), an action started before its schedule call,
+    an action started inside another action of the same scheduler call chain (end moved after the next start)."""
+    import copy
+    rnd = random.Random(seed)
+    out = []
+    for t in traces:
+        starts = [i for i, e in enumerate(t) if e["e"] == "start"]
+        if not starts:
+            continue
+        k = rnd.choice(starts)
+        x = t[k]["id"]
+        out.append(([e for e in copy.deepcopy(t) if not (e["e"] in ("start", "end") and e.get("id") == x)], "dropped_action"))
+        call = next(i for i, e in enumerate(t) if e["e"] == "call" and e.get("id") == x and e["op"] != "cancel")
+        t2 = copy.deepcopy(t)
+        ev = t2.pop(k)
+        t2.insert(call, ev)
+        out.append((t2, "start_before_schedule"))
+        dup = copy.deepcopy(t)
+        dup.insert(k + 1, dict(dup[k]))
+        out.append((dup, "started_twice"))
+    return out
